@@ -11,12 +11,14 @@ KEYS = "jkghl cra.:0123456789opb"
 DEAD = ["http://dead.invalid/x", "gopher://dead.invalid/", "mailto:x@y.invalid"]
 
 
-def ui_case(world, keys, preload=2, width=60, height=20, feeds=None, open_container=False):
+def ui_case(world, keys, preload=2, width=60, height=20, feeds=None, open_container=False, startup=False):
     """world: list of (parent, has_kids, kids, links); root: item id; open_container: the root's reply collection is opened as a
     page of its own (switchTo(Container)) instead of the root item"""
     items, root = world
     if open_container and items[root][1]:
         root = -(root + 1)
+    if startup:
+        root = -100000      # State.Subcommand("open", <held url>) on the fresh State; the keys start with (262, a, b, port)
     toks = [preload, width, height, len(items)]
     for (parent, has_kids, kids, links) in items:
         toks += [parent, 1 if has_kids else 0] + list_tokens(kids) + [len(links)]
@@ -378,7 +380,11 @@ class C07(Spec):
             it[3] = [hold_url] + list(it[3])
             items[root] = tuple(it)
             w = (items, root)
-            if rng.random() < 0.4:
+            startup = rng.random() < 0.25
+            if startup:
+                # the INITIAL load (main.go: Subcommand on the fresh State, the history is still empty)
+                keys = [(262, a, b2, hbase + 9)]
+            elif rng.random() < 0.4:
                 keys = [(262, a, b2, hbase + 9), ord("1"), ord(".")]
             else:
                 keys = [ord(rng.choice("jk ")) for _ in range(rng.randint(0, 3))]
@@ -399,7 +405,7 @@ class C07(Spec):
                     keys.append(rng.randrange(256))
             keys.append(263)
             keys += [ord(rng.choice("hhhlljk")) for _ in range(rng.randint(2, 6))]
-            hcases.append(ui_case(w, keys, preload=rng.choice((1, 2)), feeds=feeds))
+            hcases.append(ui_case(w, keys, preload=rng.choice((1, 2)), feeds=feeds, startup=startup))
         hb = Batch("c07-held", hcases, config=cfg + "[network]\ntimeout_seconds = 0\n", env=env, timeout=900,
                    correspondence="keys while a page load is in flight: ui.State == Ui.update in loading mode, the load lands where it started")
         hb.parallel = True
